@@ -46,6 +46,15 @@ CHECKS["C19"] = ("exploration",
     "Streams: a scripted child writes checkable byte sequences (0 to 4 pipe buffers, one stream first, alternating, simultaneous from two threads, delays, early close, exit codes) while 24 instances run concurrently; recording / slow / partial-write writers; both the writers and Output must hold exactly the child's bytes per stream, status must match; a run that does not return within 10 s is a violation only if /proc shows the child blocked writing a pipe that no parent thread reads with no progress over 3 s, else inconclusive. Writers: every string over {marker, other} up to length 11 (quick) / 13 (thorough) x every split into write calls through line_mapped+drop, mapped+unwrap, tee with partial-write targets and stacked combinations.",
     "Trusted: the segment model in the executor; /proc/<pid>/task/*/syscall as deadlock evidence. Liveness is restated as bounded progress.")
 
+CHECKS["C07"] = ("exploration",
+    "runtime monitoring: builder call sequences replayed against the real builders, written with the real write_toml_file (half of them over a longer pre-existing file) / write_exec_d_program_output (fd 3 of a child), the bytes judged by CPython tomllib plus hand-written CNB spec readers",
+    "Random call sequences over LaunchBuilder/ProcessBuilder (process/processes/label/labels/slice/slices, args one by one or at once, default flag, working directory), BuildPlanBuilder (provides/requires with and without metadata/or incl. leading, trailing and double or), LayerContentMetadata, Store, PackageDescriptor and exec.d output with hostile string payloads (quotes, backslashes, C0 controls, DEL, CR/LF, BMP + astral Unicode, BOM, empty, long) and metadata tables holding every TOML value kind; the written file must be valid TOML 1.0, have exactly the spec's shape and keys, decode to the constructed intent, and libcnb's own re-read must equal it.",
+    "Trusted: tomllib, tools/tomlw.py, the spec readers in tools/c07.py. One defect found by this monitor was repaired (fix: b5a89eb).")
+CHECKS["C08"] = ("exploration",
+    "runtime monitoring: the real serde-derived parsers (toml::from_str and read_toml_file) driven over generated valid documents and all their single-point mutants; accept/reject and parsed values judged against the generating schema",
+    "Schema-driven generator for component and composite buildpack.toml (every optional-key subset reachable, licenses, stacks+mixins, targets+distros, sbom-formats), buildpack plan, layer content metadata, launch.toml, store and package.toml, rendered in four table styles; every valid document must parse as each applicable public type with exactly the document's values and spec defaults (free-form metadata with arbitrary keys preserved); for each document every single-point mutant - unknown key in every non-metadata table, each certainly-required key deleted, each scalar/array retyped, order added to a component, targets/stacks added to a composite - must be rejected, and BuildpackDescriptor must classify by presence of order.",
+    "Trusted: the schema in tools/c08.py (field names, requiredness and defaults from the spec). Keys whose optionality the spec leaves open are never used for delete mutants.")
+
 PENDING = {}
 
 
